@@ -35,6 +35,54 @@ func expiry(o *marketapi.SellOrder) (time.Time, bool) {
 func (m *C12) OnStep(_ explore.Ghost, st *explore.Step) []V {
 	var out []V
 	if st.Act.Kind == explore.ActMsg && st.Res.OK {
+		// an order has exactly the expiration it was submitted with ("orders without expiration ... are
+		// untouched" is about orders submitted without one)
+		same := func(o *marketapi.SellOrder, want *time.Time) bool {
+			e, has := expiry(o)
+			if want == nil {
+				return !has
+			}
+			return has && e.Equal(*want)
+		}
+		switch msg := st.Res.Msg.(type) {
+		case *markettypes.MsgSell:
+			if r, ok := st.Res.Resp.(*markettypes.MsgSellResponse); ok && len(r.SellOrderIds) == len(msg.Orders) {
+				for i, id := range r.SellOrderIds {
+					if o := st.Post.Order(id); o != nil && !same(o, msg.Orders[i].Expiration) {
+						out = append(out, V{Kind: "C12/sell-order-expiration-differs-from-request",
+							Detail: fmt.Sprintf("orders[%d] of %s was submitted with expiration %v but stored with %v", i, st.Act.Label, msg.Orders[i].Expiration, o.Expiration)})
+					}
+				}
+				if len(msg.Orders) > 1 {
+					m.inc("multi_order_sells")
+				}
+			}
+		case *markettypes.MsgUpdateSellOrders:
+			last := map[uint64]*time.Time{}
+			touched := map[uint64]bool{}
+			for _, u := range msg.Updates {
+				touched[u.SellOrderId] = true
+				if u.NewExpiration != nil {
+					last[u.SellOrderId] = u.NewExpiration
+				}
+			}
+			for id := range touched {
+				o, po := st.Post.Order(id), st.Pre.Order(id)
+				if o == nil || po == nil {
+					continue
+				}
+				want := last[id]
+				if want == nil {
+					if e, has := expiry(po); has {
+						want = &e
+					}
+				}
+				if !same(o, want) {
+					out = append(out, V{Kind: "C12/updated-order-expiration-differs-from-request",
+						Detail: fmt.Sprintf("order %d after %s: expiration %v, expected %v", id, st.Act.Label, o.Expiration, want)})
+				}
+			}
+		}
 		if bd, ok := st.Res.Msg.(*markettypes.MsgBuyDirect); ok {
 			for _, o := range bd.Orders {
 				so := st.Pre.Order(o.SellOrderId)
